@@ -43,6 +43,20 @@ Proved here, for programs of every size, every nesting of the contexts and every
                                           still assumes per iteration is the refinement VM.exec ⊑ Bal.CStep);
      `verified_of_generated`              every `fn`/`defn` the model generator makes is verified (C04
                                           `gen_balanced`), so `MatchedBody.verified` holds for them.
+     `tail_call_constant_space_same_activation`, `reentry_has_entry_depths`
+                                          NO balance hypothesis, NO refinement hypothesis: for every entry
+                                          state that satisfies the run-time invariant of C04's calling
+                                          contract (`RunInv.WF`, `RunInv.Running`), every re-entry of that
+                                          activation at instruction 0 — after any number of tail sequences,
+                                          nested calls, callees — has the depths of the entry.
+     `TailCallConstantSpace_asFirstStated` the statement over all loaded programs as first written: FALSE
+                                          (a later activation at the same address depth passes for the same
+                                          one); kept visible, counterexample in its docstring.
+     `TailCallConstantSpace`              the repaired full statement (same activation: the address stack is
+                                          never shorter in between; programs of the generator's grammar);
+     `tail_call_constant_space_full`      PROVED: `loaded_invariant` (every state a loaded program reaches
+                                          satisfies the run-time invariant, the top-level text being the
+                                          bottom activation) + the same-activation theorem.
      `tail_guard_passes`                  (fix C09-02) the sequence starts with a guard that looks the
                                           name up before the operands; it lets the jump happen exactly
                                           when the name still denotes the function object that is running;
@@ -67,6 +81,8 @@ import ZygoVerif.Proofs.TailVM
 import ZygoVerif.Proofs.TailSite
 import ZygoVerif.Proofs.GenBalancedAll
 import ZygoVerif.Proofs.VMRefine
+import ZygoVerif.Proofs.RunAct
+import ZygoVerif.Proofs.RunMain
 import ZygoVerif.Model.LegacyTail
 import ZygoVerif.Spec.RefEval
 namespace ZygoVerif.C09
@@ -285,11 +301,27 @@ def Loaded (p : List Expr) (s0 : St) : Prop :=
   ∃ code t s1, (runGen (compileBegin (isFnScope initSt) {} p)).run initSt = (.ok (code, t), s1) ∧
     s0 = { s1 with fns := s1.fns.set mainFn { (fnOf s1 mainFn) with code := (fnOf s1 mainFn).code ++ code }, curfunc := mainFn }
 
-/-- **The full statement of (c)**: in every run of every program, every re-entry of a
-function through its tail sequence has the data, scope and address stack depths of the
-entry it started from, whatever the number of iterations. NOT proved in full: see
-`tail_call_constant_space_partial`. -/
-def TailCallConstantSpace : Prop :=
+/-- The statement of (c) **as first written. It is FALSE**, for two reasons, both in
+`Iterations (vmBody f)`:
+
+* `vmBody f E T` only asks `T` to be a later state in function `f` at the address-stack depth of
+  `E`. That does not make `T` a state of the activation entered at `E`: the activation may have
+  returned and `f` been called again from the same caller. With
+  `(defn f [n] (cond (== n 0) 0 (f (- n 1))))` and the top-level text `(let [a (f 1) b (f 2)] a)`
+  the second call of `f` is made with the value of `(f 1)` still on the data stack below its
+  operand (the initialisers of a parallel `let` are all pushed before any is bound), so the tail
+  site `T` of the second activation has one more data slot below its operands than the entry `E`
+  of the first — and `vmBody f E T` holds.
+* for such a `T` no `TailSite T x nargs k np d a L data'` with the `np`, `d` of the iteration
+  exists (`operands` fails), so the premise of `Iterations.succ` that ties `E''` to the tail
+  site is vacuous: `Iterations (vmBody f) np d a 1 E E''` then holds for EVERY state `E''`.
+
+The repaired statement is `TailCallConstantSpace` below (`vmBodyAct`, `TailIterations`: the run
+never goes below the address depth of the entry in between, and the successor state is the
+state the tail sequence leads to). A machine-checked refutation of this one needs a concrete
+run of the program above (some forty VM steps through `callExpr`'s nested runs); it is not
+given. -/
+def TailCallConstantSpace_asFirstStated : Prop :=
   ∀ (p : List Expr) (s0 : St), Loaded p s0 →
     ∀ (f np d l a n : Nat) (E E' : St), VmReach s0 E → Entry E f np d l a →
       Iterations (vmBody f) np d a n E E' → Entry E' f np d l a
@@ -403,8 +435,9 @@ theorem bodyBalanced_of_matched (f np d l a : Nat) : BodyBalanced (MatchedBody f
 /-- **(c) without the balance hypothesis**: by induction on the number of iterations, with the
 balance of every body stretch derived from the verifier (C04) instead of assumed. What is
 still assumed, per iteration, is inside `MatchedBody`: that the VM's run of the stretch is a
-run of the stack-effect machine (the refinement of `VM.exec` by `Bal.CStep`). The full
-statement `TailCallConstantSpace` needs that refinement for every reachable state. -/
+run of the stack-effect machine (the refinement of `VM.exec` by `Bal.CStep`). See
+`tail_call_constant_space_same_activation` below for the version in which that refinement is
+proved (C04's calling contract) instead of assumed. -/
 theorem tail_call_constant_space (f np d l a : Nat) :
     ∀ n E E', Entry E f np d l a → Iterations (MatchedBody f np) np d a n E E' → Entry E' f np d l a :=
   tail_call_constant_space_partial (MatchedBody f np) f np d l a (bodyBalanced_of_matched f np d l a)
@@ -471,6 +504,232 @@ example : MatchedBody 2 1 atTailCall atTailCall where
   same := ⟨rfl, rfl⟩
   run := Bal.Reach.refl _
   prep := fun x nargs hf => prep_of_fixed 2 atTailCall atTailCall rfl ⟨rfl, rfl⟩ (by decide) rfl x nargs hf
+
+/-! ### (c) repaired: the same activation, with the refinement proved
+
+`RunInv.ReachAbove a s s'` (Proofs/RunAct.lean): `s'` is reached from `s` by successful steps of
+the loop, and no state on the way — `s`, `s'` included — has fewer than `a` return addresses.
+A `Ret` of the activation entered with `a` return addresses pops one of them, so a stretch that
+stays above `a` never leaves that activation (it may call, and come back; it may take the tail
+sequence any number of times). -/
+
+theorem vmStep_iff (s s' : St) : VmStep s s' ↔ RunInv.VmStep s s' := Iff.rfl
+
+theorem vmReach_of_above {a : Nat} {s s' : St} (h : RunInv.ReachAbove a s s') : VmReach s s' := by
+  induction h with
+  | refl _ => exact .refl
+  | step _ hv _ ih => exact .step hv ih
+
+/-- the body stretch of ONE activation of `f`: as `vmBody`, and the address stack is never
+shorter than at the entry `E` in between -/
+def vmBodyAct (f : Nat) (E T : St) : Prop :=
+  RunInv.ReachAbove E.addr.length E T ∧ T.curfunc = f ∧ T.addr.length = E.addr.length ∧
+    ∃ x nargs k p rest, At T p (tailSeq x nargs k ++ rest)
+
+theorem vmBody_of_act {f : Nat} {E T : St} (h : vmBodyAct f E T) : vmBody f E T :=
+  ⟨vmReach_of_above h.1, h.2.1, h.2.2.1, h.2.2.2⟩
+
+/-- `n` iterations of one activation through its tail sequence: from the entry `E` the run
+reaches — without ever going below the address depth of `E` — a state `T` that stands at a tail
+sequence whose `PrepareCall` succeeds (`TailSite`, with whatever depths), and the next entry is
+the state that tail sequence leads to. Unlike `Iterations`, the successor is a state the
+machine really reaches (`tailIterations_reach`), never an arbitrary one. -/
+inductive TailIterations (E : St) : Nat → St → Prop
+  | zero : TailIterations E 0 E
+  | succ {n : Nat} {E' T : St} {x : String} {nargs k np d a : Nat} {L : List (Option Nat)} {data' : List (Option Val)} :
+      TailIterations E n E' → RunInv.ReachAbove E.addr.length E' T → T.addr.length = E.addr.length →
+      TailSite T x nargs k np d a L data' → TailIterations E (n + 1) (reentry T L data')
+
+/-- what `TailIterations` relates are states of the run: the machine gets from `E` to `E'` by
+successful steps without going below the address depth of `E`, and `E'` is again at
+instruction 0 at that depth. -/
+theorem tailIterations_reach {E : St} (hpc : E.pc = 0) :
+    ∀ {n E'}, TailIterations E n E' →
+      RunInv.ReachAbove E.addr.length E E' ∧ E'.addr.length = E.addr.length ∧ E'.pc = 0 := by
+  intro n E' h
+  induction h with
+  | zero => exact ⟨.refl (Nat.le_refl _), rfl, hpc⟩
+  | succ _ hb ha hs ih =>
+    obtain ⟨p, rest, hat⟩ := hs.code
+    obtain ⟨ext, hlin, he⟩ := hs.scopes
+    have := RunInv.tailSeq_reachAbove _ p _ _ _ rest ext _ _ hat hs.prep hlin he
+    rw [ha] at this
+    exact ⟨ih.1.trans (hb.trans this), ha, rfl⟩
+
+/-- **The full statement of (c), repaired**: in every run of every program of the model
+generator's grammar (`Bal.okLs`), every re-entry of an activation through its tail sequence has
+the data, scope and address stack depths of the entry `E` of that activation (`0 < a`: a called
+function, not the top-level text, which has no return address) — whatever the number of iterations, whatever the body does in between (calls, callees that take tail sequences
+of their own, closures, loops). PROVED: `tail_call_constant_space_full`, from
+`tail_call_constant_space_same_activation` (the same conclusion for every entry state that
+satisfies C04's run-time invariant `RunInv.WF` + `RunInv.Running`) and `loaded_invariant` (every
+state a loaded program of the grammar reaches satisfies that invariant: the top-level text is
+the bottom activation, C04's `run_at_rest` machinery). -/
+def TailCallConstantSpace : Prop :=
+  ∀ (p : List Expr) (s0 : St), Bal.okLs p = true → Loaded p s0 →
+    ∀ (f np d l a n : Nat) (E E' : St), VmReach s0 E → Entry E f np d l a → 0 < a →
+      TailIterations E n E' → Entry E' f np d l a
+
+/-- (c) for the same activation, **no balance hypothesis, no refinement hypothesis**: `E` is the
+entry (instruction 0) of the running activation `top` of a state that satisfies the run-time
+invariant of C04's calling contract — every function object verified by the balance checker,
+the activations below described by `Running`'s chain. Then every state the run is in at
+instruction 0 at the address depth of `E`, without having gone below it, is in the same
+function with exactly the data and scope stack depths of `E`. By `RunInv.reentry_depths`: the
+invariant is kept by every step (`RunInv.allSpec'`, all 13 functions of the VM's mutual block,
+nested runs included), an activation pushed above `top` has a longer address stack, and at
+instruction 0 the verifier's entry annotation fixes the depths. -/
+theorem reentry_has_entry_depths (b : RunInv.Base) (E E' : St) (top : RunInv.Act) (rest : List RunInv.Act)
+    (hw : RunInv.WF E) (hr : RunInv.Running b E top rest) (f np d l a : Nat) (hE : Entry E f np d l a) (ha0 : 0 < a)
+    (hreach : RunInv.ReachAbove a E E') (ha : E'.addr.length = a) (hpc : E'.pc = 0) :
+    Entry E' f np d l a ∧ RunInv.WF E' ∧ RunInv.Running b E' top rest := by
+  obtain ⟨h1, h2, h3, h4, h5⟩ := RunInv.reentry_depths b E E' top rest hw hr hE.pc
+    (by intro h; have := hE.addr; rw [h] at this; simp at this; omega)
+    (by rw [hE.addr]; exact hreach) (by rw [ha, hE.addr]) hpc
+  exact ⟨⟨hpc, h3.trans hE.cur, h4.trans hE.data, h5.trans hE.scopes, ha⟩, h1, h2⟩
+
+/-- (c), by the number of iterations: every re-entry of the activation through a tail sequence
+has the depths of its first entry. -/
+theorem tail_call_constant_space_same_activation (b : RunInv.Base) (E : St) (top : RunInv.Act) (rest : List RunInv.Act)
+    (hw : RunInv.WF E) (hr : RunInv.Running b E top rest) (f np d l a : Nat) (hE : Entry E f np d l a) (ha0 : 0 < a) :
+    ∀ n E', TailIterations E n E' → Entry E' f np d l a := by
+  intro n E' hit
+  obtain ⟨h1, h2, h3⟩ := tailIterations_reach hE.pc hit
+  rw [hE.addr] at h1 h2
+  exact (reentry_has_entry_depths b E E' top rest hw hr f np d l a hE ha0 h1 h2 h3).1
+
+/-- from the same-activation theorem to `TailCallConstantSpace`: the invariant at the entry
+states of loaded programs (discharged by `loaded_invariant` below). -/
+theorem tailCallConstantSpace_of_invariant
+    (hinv : ∀ (p : List Expr) (s0 : St), Bal.okLs p = true → Loaded p s0 → ∀ E, VmReach s0 E → E.pc = 0 →
+      RunInv.WF E ∧ ∃ b top rest, RunInv.Running b E top rest) :
+    TailCallConstantSpace := by
+  intro p s0 hok hl f np d l a n E E' hreach hE ha0 hit
+  obtain ⟨hw, b, top, rest, hr⟩ := hinv p s0 hok hl E hreach hE.pc
+  exact tail_call_constant_space_same_activation b E top rest hw hr f np d l a hE ha0 n E' hit
+
+/-- the fresh interpreter satisfies the table invariant -/
+theorem wf_initSt : RunInv.WF initSt := by
+  refine ⟨fun id h2 hl => ?_, by decide, rfl, ?_, (fun a ha => by cases ha), (fun lz hlz => by cases hlz), (fun c hc => by cases hc)⟩
+  · have : initSt.fns.length = 2 := rfl
+    omega
+  · intro sc hsc p hp
+    simp only [initSt, List.mem_cons, List.mem_nil_iff, or_false] at hsc
+    subst hsc
+    simp only [List.mem_append, List.mem_cons, List.mem_nil_iff, or_false, List.mem_map] at hp
+    rcases hp with (rfl | rfl) | ⟨nm, _, rfl⟩ <;> rfl
+
+/-- **Every state a loaded program of the grammar reaches satisfies the run-time invariant**: the
+table invariant holds and the loop is `Running`, with the top-level text (`mainfunc` from its
+old end on) as the bottom activation. From C04's `RunInv.load_ok` (the generator keeps the table
+invariant and the text's code is a balanced fragment), `RunInv.loaded_running` (the fragment
+placed in `mainfunc`) and the calling contract step by step (`RunInv.holds_step`). -/
+theorem loaded_invariant (p : List Expr) (s0 : St) (hok : Bal.okLs p = true) (hl : Loaded p s0) :
+    ∀ E, VmReach s0 E → RunInv.WF E ∧ ∃ b top rest, RunInv.Running b E top rest := by
+  obtain ⟨code, t, s1, hload, rfl⟩ := hl
+  obtain ⟨hw1, he1, d1, l1, a1, c1, p1, _, hcode, hids, as, τ, hfrag, h0, _⟩ :=
+    RunInv.load_ok (isFnScope initSt) p code t wf_initSt hok hload
+  have hfo : fnOf s1 mainFn = fnOf initSt mainFn := he1.fnOf mainFn (by decide)
+  obtain ⟨b, a0, _, hA, hh⟩ := RunInv.loaded_running (s1 := s1) code as initSt.loops.length hw1 (by rw [d1]; rfl) (by rw [a1]; rfl)
+    (by rw [hfo]; rfl) (by rw [hfo]; exact Bal.AllOK.nil _) (by rw [hfo]; exact Bal.idsIn_nil _ _) hids he1.loops_len
+    (by rw [p1, hfo]; rfl) hcode hfrag h0
+  intro E hreach
+  have : RunInv.Holds b a0 [] E := by
+    change VmReach (RunInv.loaded s1 code) E at hreach
+    generalize RunInv.loaded s1 code = s at hh hreach
+    induction hreach with
+    | refl => exact hh
+    | step hv _ ih => exact ih (RunInv.holds_step hh hv (by rw [hA]; exact Nat.zero_le _))
+  obtain ⟨hw, _, top, rest, hr, _⟩ := this
+  exact ⟨hw, b, top, rest, hr⟩
+
+/-- **(c), the repaired full statement, proved**: in every run of every program of the model
+generator's grammar, every re-entry of a function activation through its tail sequence has the
+data, scope and address stack depths of the entry of that activation, whatever the number of
+iterations. -/
+theorem tail_call_constant_space_full : TailCallConstantSpace :=
+  tailCallConstantSpace_of_invariant (fun p s0 hok hl E hr _ => loaded_invariant p s0 hok hl E hr)
+
+/-- the repaired body relation is the old one plus the condition on the way -/
+example (f : Nat) (E T : St) (h : vmBodyAct f E T) : vmBody f E T := vmBody_of_act h
+
+/-! #### Non-vacuity of the hypotheses of `tail_call_constant_space_same_activation` -/
+
+/-- `(defn f [n] … (f (- n 1)))` just called from the top level with the operand `3`: the state
+right after `CallFunction` -/
+def exEntry : St :=
+  { fns := [ { name := "__main", closing := [some 0] },
+             { name := "builtin", user := true },
+             { name := "f", nargs := 1, params := ["n"], closing := [some 0],
+               code := [.addFuncScope 2, .popStackPutEnv "n", .tailGuard "f" 5, .envToStack "n", .prepareCall "f" 1, .removeScope, .goto 0,
+                        .callExpr (.sym "f") [.sym "n"], .removeScope, .ret] } ],
+    scopes := [ { vars := [("f", .fn 2)] } ],
+    linear := [some 0],
+    data := [some (intOfLit 3)],
+    addr := [some (0, 5)],
+    curfunc := 2, pc := 0 }
+
+theorem exEntry_good : RunInv.FnGood exEntry 2 where
+  user := rfl
+  sig := rfl
+  code := by
+    intro i hi
+    have hc : (fnOf exEntry 2).code = [.addFuncScope 2, .popStackPutEnv "n", .tailGuard "f" 5, .envToStack "n", .prepareCall "f" 1, .removeScope, .goto 0,
+                        .callExpr (.sym "f") [.sym "n"], .removeScope, .ret] := rfl
+    rw [hc] at hi
+    simp only [List.mem_cons, List.not_mem_nil, or_false] at hi
+    rcases hi with rfl | rfl | rfl | rfl | rfl | rfl | rfl | rfl | rfl | rfl <;> decide +kernel
+  verified := by
+    apply Bal.check_verifies
+    have hb : Bal.checkB (fnB exEntry 2) = true := by decide
+    unfold Bal.checkB at hb
+    split at hb
+    · rename_i u hu; cases u; exact hu
+    · cases hb
+
+theorem exEntry_wf : RunInv.WF exEntry where
+  fns := by
+    intro id h2 h3
+    have : id = 2 := by simp only [exEntry, List.length_cons, List.length_nil] at h3; omega
+    subst this
+    exact exEntry_good
+  two := by decide
+  loopstack := rfl
+  scopes := by
+    intro sc hsc p hp
+    simp only [exEntry, List.mem_cons, List.not_mem_nil, or_false] at hsc
+    subst hsc
+    simp only [List.mem_cons, List.not_mem_nil, or_false] at hp
+    subst hp
+    decide
+  heap := by intro a ha; cases ha
+  lazies := by intro lz hlz; cases hlz
+  data := by
+    intro c hc
+    simp only [exEntry, List.mem_cons, List.not_mem_nil, or_false] at hc
+    subst hc
+    rfl
+
+/-- the hypotheses of `tail_call_constant_space_same_activation` hold of `exEntry`: it is
+well-formed, it is the entry of an activation of function 2 (one operand above nothing, one
+scope, one return address) running above the top level (`Base`: at instruction 4 of `__main`). -/
+example : ∃ b top rest, RunInv.WF exEntry ∧ RunInv.Running b exEntry top rest ∧ Entry exEntry 2 1 0 1 1 ∧
+    TailIterations exEntry 0 exEntry := by
+  obtain ⟨ann, hV, hact⟩ := RunInv.actOK_of_good exEntry_good (by decide)
+  refine ⟨⟨[], [some 0], [], 0, 4, false⟩, ⟨2, ann, [], 1, 1⟩, [], exEntry_wf, ?_, ⟨rfl, rfl, rfl, rfl, rfl⟩, .zero⟩
+  exact ⟨rfl, by decide, Bal.inv_entry _ ann hV [] 1 1 _ rfl rfl rfl rfl, hact _ _ _, ⟨rfl, rfl, rfl⟩, List.suffix_refl _⟩
+
+open ZygoVerif.LegacyTail in
+/-- and the step of `TailIterations` is taken at the concrete tail site `LegacyTail.atTailCall`
+(the same function three instructions later: guard passed, operand pushed): `PrepareCall`
+succeeds there, the function scope lies above the caller's, and the next state is the
+re-entry at instruction 0. -/
+example : TailIterations atTailCall 1 (reentry atTailCall [some 0] [some (intOfLit 2)]) :=
+  .succ (x := "f") (nargs := 1) (k := 0) (np := 1) (d := 0) (a := 1) .zero (.refl (Nat.le_refl _)) rfl
+    ⟨⟨4, [.callExpr (.sym "f") [.sym "n"], .removeScope, .ret],
+        ⟨rfl, rfl, [.addFuncScope 2, .popStackPutEnv "n", .tailGuard "f" 5, .envToStack "n"], [], rfl, rfl⟩⟩,
+      fun n => exec_prepareCall_fixed n atTailCall "f" 1 rfl, rfl, ⟨[some 1], rfl, rfl⟩, rfl⟩
+
 /-! ### The guard (fix C09-02): jump only while the name still denotes the running function -/
 
 /-- The guard falls through — and the tail sequence is taken, in constant space — exactly when
